@@ -4,7 +4,7 @@ SPEC = {
     "level": "model_checking",
     # Two stages of the same harness: the sanitizer build (ASan+UBSan monitor on every transition, linear runs at the real limits)
     # and a plain -O2 build of the same sources that reaches greater depths / fixpoints for the functional oracle (~5.5x faster).
-    # Deadlines are generous on purpose (other checks share the machine); the enumerations need ~1.5 min (quick) / ~10-11 min (thorough)
+    # Deadlines are generous on purpose (other checks share the machine); the enumerations need ~1.7 min (quick) / ~16-17 min (thorough)
     # of wall time on 16 idle cores.
     "stages": [
         {"name": "san", "harness": "C07_follower.cpp", "config": "san", "args": ["--stage", "san"],
@@ -24,7 +24,12 @@ SPEC = {
              "(sanitizer stage: 4 more), thorough: all 22; a pair contains every history in which only one connection sends. Alphabet per connection: SYN, SYN+ACK, ACK, client data segment 0..2 "
              "(1,1,3 bytes), server data segment 0..2 (1,1,2 bytes) in any order with duplicates, FIN per side, RST per side, a first packet "
              "that is not the SYN (mid-stream start: attaches with partial following, must be ignored for good without), each event with a "
-             "time increment from {0, keep-alive/2, keep-alive, keep-alive+1us}; plus THIRD-PARTY packets of a TCP 4-tuple that belongs to neither "
+             "time increment from {0, keep-alive/2, keep-alive, keep-alive+1us}. The FLAG BYTE of each packet kind is a domain, not a constant: every "
+             "connection of a configuration is built in one of six flag styles (plain; ECN-setup SYN|ECE|CWR / SYN|ACK|ECE; SYN with ECE, CWR, "
+             "PSH or URG; SYN|ACK with ECE/PSH/URG; data with/without PSH, with URG/ECE/CWR; FIN|PSH|ACK, FIN|ACK|URG, bare FIN; RST with "
+             "ACK/PSH/URG on either side) - connection a plain and connection b in style (pair index mod 6) in every job, plus flag-family jobs "
+             "with both connections non-plain on the base pair (quick: 2 families, plain stage, FULL+DATA; thorough: all 5, both stages, also on "
+             "(v4,v6)); the model reacts to the SYN/ACK/FIN/RST bits only. Plus THIRD-PARTY packets of a TCP 4-tuple that belongs to neither "
              "connection and creates no stream (pure ACK; a data segment while partial following is off) with the same four increments, "
              "which only make time pass and drive the idle sweep, so that both connections can be expired at the same sweep; packets are Ethernet/IP(v6)/TCP/payload frames serialized "
              "and re-parsed, fed through process_packet(Packet&) with explicit timestamps. Not generated (left open by the documentation): "
